@@ -44,8 +44,10 @@ def check(prop, tier, seed):
     if prop != "C05":
         # far-below-scale populations (whole-population ties); result-level oracles only
         items += [{"s": k} for k in range(len(universe.small_population_battery()))]
+    if True:
         # variety of user-supplied objects (numpy / int / float32 objective values, huge / tiny values, wide / narrow / integer
-        # bounds, string / tuple / None choices, 40 dimensions); result-level oracles only
+        # bounds, string / tuple / None choices, 40 dimensions, an objective that scribbles on its argument, a user subclass
+        # of ContinuousVariable with its own correct(), 0-d array objective values); audited (audit/types_v2.json)
         items += [{"y": k} for k in range(len(universe.types_battery()))]
     if prop == "C02":
         items += [{"n": k} for k in range(len(universe.battery_inf()))]      # non-finite objective values
